@@ -24,7 +24,7 @@ TECHNIQUE = ("bounded exhaustive enumeration of deviation-bounded parameter latt
 CLAIM = ("Every parameter vector within K deviations of the default (K=1 quick, K=2 thorough) of Noh, Sedov, Guderley, both 1D Riemann "
          "solvers (state lattice, the tabulated problems and their mirrors, JWL), EHEP, SDRZ, EP piston and the three radiative-shock "
          "solvers is called at every lattice time on 400 uniform points plus 16 points straddling every discontinuity located from the "
-         "fields; Mader on every grid of {50,100,101,257} points x 16 origin offsets x 3 times x 2 piston speeds x 2 gammas (the cell "
+         "fields; Mader on every grid of {50,100,101,257} points x 16 origin offsets x 3 times x 3 piston speeds (0, +-2e4) x 3 gammas (3, 2, 3.5) (the cell "
          "phase of the Taylor-wave tail is enumerated); Su-Olson on a 12 x 8 (x, t) lattice per vector. Positivity, compressive shocks "
          "(direction from the speed implied by the located positions), monotone fans and boundedness of smeared cells are decided on "
          "every returned value. Exhaustive over the stated alphabet; right level because the failure modes are sign errors and one-cell "
